@@ -645,6 +645,64 @@ def identity_memo_obligations(prog, rule, rels):
     return out
 
 
+def column_loop_obligations(prog, rule, rel_, fnames):
+    """One obligation per per-column loop of the named module functions: a result table allocated with N columns and filled by
+    `for i in <range>: table[:, i] = ...` is filled for EVERY column - the range is range(N) with the very N of the allocation (locals
+    inlined), starting at 0.  A column left out keeps the zeros of the allocation."""
+    from ..term import Resolver
+    out = []
+    mi = prog.module(rel_)
+    for fname in fnames:
+        fn = mi.functions.get(fname)
+        if fn is None:
+            raise AnalysisError(f"anchor vanished: {rel_}:{fname}")
+        rz = Resolver(fn, prog, mi)
+        allocs = {}
+        for st in ast.walk(fn):
+            if isinstance(st, ast.Assign) and len(st.targets) == 1 and isinstance(st.targets[0], ast.Name) and isinstance(st.value, ast.Call) \
+                    and U(st.value.func) in ("zeros", "empty", "ones", "full") and st.value.args \
+                    and isinstance(st.value.args[0], (ast.List, ast.Tuple)) and len(st.value.args[0].elts) == 2:
+                allocs[st.targets[0].id] = (st, U(rz.term(st.value.args[0].elts[1], st)))
+        for lp in [l for l in ast.walk(fn) if isinstance(l, ast.For)]:
+            # the index variable and the number of iterations: `for i in range(N)`, `for i, .. in enumerate(X.T)` / `enumerate(zip(X.T, Y.T))`
+            it = lp.iter
+            iv, counts, shown = None, set(), U(it)
+            if isinstance(lp.target, ast.Name) and isinstance(it, ast.Call) and U(it.func) == "range" and not it.keywords:
+                iv = lp.target.id
+                if len(it.args) == 1:
+                    counts = {U(rz.term(it.args[0], lp))}
+            elif isinstance(lp.target, ast.Tuple) and lp.target.elts and isinstance(lp.target.elts[0], ast.Name) \
+                    and isinstance(it, ast.Call) and U(it.func) == "enumerate" and len(it.args) == 1 and not it.keywords:
+                iv = lp.target.elts[0].id
+                srcs = it.args[0].args if isinstance(it.args[0], ast.Call) and U(it.args[0].func) == "zip" else [it.args[0]]
+                for x in srcs:
+                    if isinstance(x, ast.Attribute) and x.attr == "T":
+                        counts.add(U(rz.term(x.value, lp)) + ".shape[1]")
+            if iv is None:
+                continue
+            stores = []
+            for b_ in lp.body:
+                for n in ast.walk(b_):
+                    if isinstance(n, ast.Assign):
+                        for t in n.targets:
+                            stores.extend(t.elts if isinstance(t, (ast.Tuple, ast.List)) else [t])
+            filled = sorted({t.value.id for t in stores if isinstance(t, ast.Subscript) and isinstance(t.value, ast.Name) and t.value.id in allocs
+                             and isinstance(t.slice, ast.Tuple) and len(t.slice.elts) == 2 and U(t.slice.elts[1]) == iv})
+            if not filled:
+                continue
+            why = ""
+            if not counts:
+                why = f"the column loop runs over `{shown}`, which is not recognised as one iteration per column"
+            else:
+                bad = [a for a in filled if allocs[a][1] not in counts]
+                if bad:
+                    why = (f"the column loop makes {' / '.join(sorted(counts))} iterations but `{bad[0]}` was allocated with {allocs[bad[0]][1]} columns")
+            out.append(struct_ob(rule, f"{mi.name}.{fname}[{','.join(filled)}]", not why,
+                                 (why + ": the columns left out keep the zeros of the allocation") if why else "", rel_, lp.lineno,
+                                 slots={"tables": filled}))
+    return out
+
+
 def _scalar_attr(prog, path):
     """The last attribute of the path is, in every class that assigns it in a constructor, a plain number (x.size, len(..), a literal,
     int(..) / float(..)): `n = obj.count; n += 1` re-binds a local and updates nothing."""
@@ -785,6 +843,8 @@ def call_order_obligations(prog, rule, rels):
             fns = ci.methods.items() if ci is not None else mi.functions.items()
             for mname, fn in fns:
                 sn = fn.args.args[0].arg if (ci is not None and fn.args.args) else None
+                local_names = {a.arg for a in fn.args.args + fn.args.kwonlyargs} | {n.id for n in ast.walk(fn) if isinstance(n, ast.Name)
+                                                                                     and isinstance(n.ctx, ast.Store)}
                 for call in [n for n in ast.walk(fn) if isinstance(n, ast.Call)]:
                     callee = None
                     f = call.func
@@ -824,6 +884,12 @@ def call_order_obligations(prog, rule, rels):
                         if j < len(names) and names[j] == params[i] and i < j:
                             hits.append((call.lineno, U(call)[:100], f"`{a}` goes into the slot of `{params[i]}` and `{names[j]}` into the slot "
                                                                       f"of `{params[j]}` ({callee.name}({', '.join(params)}))", f"{cls_name + '.' if cls_name else ''}{mname}"))
+                        elif params[i] in local_names and not (j < len(names) and names[j] == params[i]) and j < len(names) and names[j] == a:
+                            # one-sided: the caller holds a value named like the slot's parameter, yet passes - twice - the value named
+                            # like ANOTHER parameter of the callee (`super().__init__(n, n)` into `__init__(inv_mass, n)`)
+                            hits.append((call.lineno, U(call)[:100], f"`{a}` is passed both in its own slot and in the slot of `{params[i]}`, while the "
+                                                                      f"caller's own `{params[i]}` is not passed ({callee.name}({', '.join(params)}))",
+                                         f"{cls_name + '.' if cls_name else ''}{mname}"))
         msg = ""
         if hits:
             line, text, why, where = hits[0]
